@@ -336,6 +336,44 @@ macro_rules! strict_backend {
                     "ff.universal_labels" => opt(finite_function::coequalizer_universal::<K, O>(&ff(&a["q"]), &$Arr(vec_o(&a["h"]))).map(|x| json!(x.0))),
                     "ff.compose_semifinite" => opt((&ff(&a["f"]) >> &sf_o(&a["labels"])).map(|x| o_sf_o(&x))),
                     "ff.eq" => val(json!(ff(&a["f"]) == ff(&a["g"]))),
+                    // ---- semifinite functions and the SemifiniteArrow category (C06)
+                    "sf.coproduct" => val(o_sf_o(&sf_o(&a["a"]).coproduct(&sf_o(&a["b"])))),
+                    "sf.add" => opt((&sf_o(&a["a"]) + &sf_o(&a["b"])).map(|x| o_sf_o(&x))),
+                    "sf.singleton" => val(o_sf_o(&SF::<O>::singleton(int(&a["x"])))),
+                    "sf.zero" => val(o_sf_o(&<SF<O> as num_traits::Zero>::zero())),
+                    "sf.len" => val(nat(sf_o(&a["a"]).len())),
+                    "sfa.compose" | "sfa.source" | "sfa.target" | "sfa.identity" => {
+                        use open_hypergraphs::semifinite::{SemifiniteArrow, SemifiniteObject};
+                        fn arrow(v: &Value) -> SemifiniteArrow<K, O> {
+                            match v["kind"].as_str().unwrap() {
+                                "identity" => SemifiniteArrow::Identity,
+                                "finite" => SemifiniteArrow::Finite(ff(&v["f"])),
+                                _ => SemifiniteArrow::Semifinite(sf_o(&v["labels"])),
+                            }
+                        }
+                        fn o_arrow(x: &SemifiniteArrow<K, O>) -> Value {
+                            match x {
+                                SemifiniteArrow::Identity => json!({"kind": "identity"}),
+                                SemifiniteArrow::Finite(f) => json!({"kind": "finite", "f": o_ff(f)}),
+                                SemifiniteArrow::Semifinite(l) => json!({"kind": "semifinite", "labels": o_sf_o(l)}),
+                            }
+                        }
+                        fn o_obj(x: &SemifiniteObject<K, O>) -> Value {
+                            match x {
+                                SemifiniteObject::Finite(n) => json!({"kind": "finite", "n": nat(*n)}),
+                                SemifiniteObject::Set(_) => json!({"kind": "set"}),
+                            }
+                        }
+                        match op {
+                            "sfa.compose" => opt(arrow(&a["f"]).compose(&arrow(&a["g"])).map(|x| o_arrow(&x))),
+                            "sfa.source" => val(o_obj(&arrow(&a["f"]).source())),
+                            "sfa.target" => val(o_obj(&arrow(&a["f"]).target())),
+                            _ => {
+                                let obj = if a["obj"]["kind"] == "set" { SemifiniteObject::Set(std::marker::PhantomData) } else { SemifiniteObject::Finite(us(&a["obj"]["n"])) };
+                                val(o_arrow(&SemifiniteArrow::<K, O>::identity(obj)))
+                            }
+                        }
+                    }
 
                     // ======================================================= segmented arrays (C08)
                     "ic.new_ff" => opt(ICF::new(ff(&a["sources"]), ff(&a["values"])).map(|x| o_icf(&x))),
